@@ -77,6 +77,7 @@ type Conn struct {
 	closed bool
 	rr     int
 	nsub   int
+	held   map[string][]held
 	OnSend func(dest string, body []byte) error
 	// FailAcks makes every Ack fail (a broker that rejects acknowledgements, e.g. for a
 	// subscription in auto-ack mode).
@@ -90,6 +91,7 @@ type Subscription struct {
 	active      bool
 	ack         AckMode
 	id          string
+	outstanding *held // queue subscriptions with client acks: the message not yet acknowledged
 }
 
 func NewConn() *Conn { return &Conn{obj: vsched.NewObj("stompconn")} }
@@ -115,22 +117,32 @@ func (c *Conn) Subscribe(dest string, ack AckMode, opts ...func(*Frame) error) (
 	}
 	for _, o := range c.subs {
 		if o.active && o.id == s.id {
-			// a second SUBSCRIBE with an id in use: the broker answers with an ERROR frame and closes
-			// the connection; every subscription's channel gets the error and is closed. Subscribe
-			// itself has already returned by then (it does not wait for a receipt).
+			// a second SUBSCRIBE with an id in use: the client's routing table is keyed by the id, so
+			// the new subscription takes the entry over and the earlier one is orphaned — it gets
+			// nothing any more, not even the error, and its channel is never closed. The broker answers
+			// with an ERROR frame and closes the connection; every subscription still in the routing
+			// table gets the error and is closed. Subscribe itself has already returned by then (it
+			// does not wait for a receipt). (Observed on go-stomp v2.1.4 by the conformance step.)
 			c.subs = append(c.subs, s)
 			c.closed = true
 			for _, x := range c.subs {
-				if x.active {
-					x.active = false
-					vsched.SendNow(x.C, &Message{Err: errors.New("subscription already exists"), Conn: c, Subscription: x})
-					vsched.CloseNow(x.C, 0x0c105e)
+				if !x.active {
+					continue
 				}
+				x.active = false
+				if x != s && x.id == s.id {
+					continue
+				}
+				vsched.SendNow(x.C, &Message{Err: errors.New("subscription already exists"), Conn: c, Subscription: x})
+				vsched.CloseNow(x.C, 0x0c105e)
 			}
 			return s, nil
 		}
 	}
 	c.subs = append(c.subs, s)
+	if strings.HasPrefix(dest, "/queue/") {
+		c.pump(dest)
+	}
 	return s, nil
 }
 
@@ -146,6 +158,13 @@ func (s *Subscription) Unsubscribe(opts ...func(*Frame) error) error {
 	s.conn.obj.Write()
 	s.active = false
 	vsched.CloseNow(s.C, 0x0c105e)
+	if s.outstanding != nil {
+		// a queue message that was never acknowledged goes back to the head of the queue
+		h := *s.outstanding
+		s.outstanding = nil
+		s.conn.held[s.destination] = append([]held{h}, s.conn.held[s.destination]...)
+		s.conn.pump(s.destination)
+	}
 	return nil
 }
 
@@ -174,16 +193,60 @@ func (c *Conn) Send(dest, contentType string, body []byte, opts ...func(*Frame) 
 	return nil
 }
 
-// Deliver routes a message to the matching active subscriptions (topic: all; queue: one).
+type held struct {
+	contentType string
+	body        []byte
+	seq         int
+}
+
+// pump hands queued messages of a /queue/ destination to subscriptions that can take one: a queue
+// keeps a message until a subscriber is there, gives each message to one subscriber, and gives a
+// subscriber whose ack mode is not auto one message at a time (the next one after the ack).
+// (go-stomp's server package; observed by the conformance step.)
+func (c *Conn) pump(dest string) {
+	for len(c.held[dest]) > 0 {
+		var free []*Subscription
+		for _, s := range c.subs {
+			if s.active && s.destination == dest && s.outstanding == nil {
+				free = append(free, s)
+			}
+		}
+		if len(free) == 0 {
+			return
+		}
+		s := free[0]
+		if len(free) > 1 {
+			s = free[vsched.Choose(len(free))]
+		}
+		h := c.held[dest][0]
+		c.held[dest] = c.held[dest][1:]
+		if s.ack != AckAuto {
+			hh := h
+			s.outstanding = &hh
+		}
+		m := &Message{Destination: dest, ContentType: h.contentType, Conn: c, Subscription: s, Body: h.body, Seq: h.seq}
+		if !vsched.SendNow(s.C, m) {
+			panic("fakestomp: subscription buffer full or closed (outside the modelled range)")
+		}
+	}
+}
+
+// Deliver routes a message to the matching active subscriptions (topic: all of them, dropped when
+// there is none; queue: see pump).
 func (c *Conn) Deliver(dest, contentType string, body []byte) {
+	if strings.HasPrefix(dest, "/queue/") {
+		if c.held == nil {
+			c.held = map[string][]held{}
+		}
+		c.held[dest] = append(c.held[dest], held{contentType, append([]byte(nil), body...), c.seq})
+		c.pump(dest)
+		return
+	}
 	var targets []*Subscription
 	for _, s := range c.subs {
 		if s.active && s.destination == dest {
 			targets = append(targets, s)
 		}
-	}
-	if strings.HasPrefix(dest, "/queue/") && len(targets) > 1 {
-		targets = []*Subscription{targets[vsched.Choose(len(targets))]}
 	}
 	for _, s := range targets {
 		m := &Message{Destination: dest, ContentType: contentType, Conn: c, Subscription: s, Body: append([]byte(nil), body...), Seq: c.seq}
@@ -206,6 +269,10 @@ func (c *Conn) Ack(m *Message) error {
 		return ErrClosedUnexpectedly
 	}
 	c.Acked = append(c.Acked, m.Seq)
+	if s := m.Subscription; s != nil && s.outstanding != nil && s.outstanding.seq == m.Seq {
+		s.outstanding = nil
+		c.pump(s.destination)
+	}
 	return nil
 }
 
